@@ -250,7 +250,8 @@ func ruleFutureOrder(c *Ctx, r *R) {
 		// typestate: 0 = no receive from f.c observed yet, 1 = observed (directly, in a select arm, or inside a helper that
 		// reports it through its boolean result)
 		pkgOf := fn.Pkg
-		pf := &PF{N: 2, InScope: func(f *ssa.Function) bool { return f.Pkg == pkgOf && f.Blocks != nil && f != fn }}
+		unbind := bindChanParams(fn) // a shared select helper sees this function's channels (readyBeforeDone(done, f.c))
+		pf := &PF{N: 2, InScope: func(f *ssa.Function) bool { return rootFn(origin(f)).Pkg == pkgOf && f.Blocks != nil && origin(f) != fn }}
 		isC := func(ch ssa.Value) bool { return fieldOfChan(ch) == "c" }
 		pf.Instr = func(f *ssa.Function, in ssa.Instruction, q int) (StateSet, bool) {
 			if u, ok := in.(*ssa.UnOp); ok && u.Op == token.ARROW && isC(u.X) {
@@ -281,6 +282,7 @@ func ruleFutureOrder(c *Ctx, r *R) {
 		before := map[ssa.Instruction]StateSet{}
 		pf.Visit = func(f *ssa.Function, in ssa.Instruction, s StateSet) { before[in] = s }
 		pf.Exits(fn, ss(0))
+		unbind()
 		n := 0
 		instrs(fn, func(b *ssa.BasicBlock, i int, in ssa.Instruction) {
 			ld, ok := in.(*ssa.UnOp)
